@@ -815,12 +815,12 @@ def install(interp):
     def _mexp(x):
         if isinstance(x, SV):
             return SV(tz.f_exp(_real(x)))
-        return SV(tz.f_exp(num(float(x)))) if x != 0 else 1.0
+        return math.exp(x)
 
     def _mlog(x):
         if isinstance(x, SV):
             return SV(tz.f_log(_real(x)))
-        return SV(tz.f_log(num(float(x)))) if x != 1 else 0.0
+        return math.log(x)
 
     def _copysign(a, s):
         if isinstance(a, SV) or isinstance(s, SV):
@@ -832,7 +832,7 @@ def install(interp):
     interp.namespaces["math"] = Namespace(
         "math",
         dict(
-            ceil=sym.py_ceil, floor=sym.py_floor, sqrt=_msqrt, exp=_mexp, log=_mlog, pi=math.pi, e=math.e, inf=math.inf,
+            ceil=sym.py_ceil, floor=sym.py_floor, sqrt=_msqrt, exp=_mexp, log=_mlog, pi=math.pi, e=math.e, inf=math.inf, tau=math.tau,
             nan=math.nan, copysign=_copysign, isnan=lambda x: False if isinstance(x, SV) else math.isnan(x),
             isinf=lambda x: False if isinstance(x, SV) else math.isinf(x), fabs=abs,
             prod=lambda it: _prod(interp.iterate(it)), gamma=math.gamma, lgamma=lambda x: SV(tz.f_lgamma(_real(x))) if isinstance(x, SV) else math.lgamma(x),
